@@ -1663,6 +1663,12 @@ func equalType(r *rand.Rand, t sx.Sexp) sx.Sexp {
 		return sx.T(t.Tag(), equalType(r, a[0]))
 	case "hash":
 		return sx.T("hash", equalType(r, a[0]), equalType(r, a[1]), a[2], a[3])
+	case "struct":
+		xs := []sx.Sexp{}
+		for _, m := range a {
+			xs = append(xs, sx.L(m.List[0], m.List[1], equalType(r, m.List[2])))
+		}
+		return sx.T("struct", xs...)
 	case "like":
 		return sx.T("like", equalType(r, a[0]), a[1])
 	case "pat":
